@@ -211,14 +211,16 @@ macro_rules! interp {
                     (self.tag.get() % 5).hash(h)
                 }
             }
+            // both impls honour the caller's format options (width, fill, alignment, precision, `#`),
+            // so that a handle which does not pass its formatter on shows up in the transcript
             impl std::fmt::Debug for V {
                 fn fmt(&self, f: &mut std::fmt::Formatter<'_>) -> std::fmt::Result {
-                    write!(f, "V<{}>", self.tag.get())
+                    f.debug_struct("V").field("tag", &self.tag.get()).field("kids", &self.kids.borrow().len()).finish()
                 }
             }
             impl std::fmt::Display for V {
                 fn fmt(&self, f: &mut std::fmt::Formatter<'_>) -> std::fmt::Result {
-                    write!(f, "v{}", self.tag.get())
+                    f.pad(&format!("v{}", self.tag.get()))
                 }
             }
 
@@ -468,7 +470,20 @@ macro_rules! interp {
                             Some(r) => {
                                 let p1 = format!("{:p}", *r);
                                 let p2 = format!("{:p}", Rc::as_ptr(r));
-                                format!("fmt {} -> {:?} {} pointer_fmt_matches {}", v, r, r, p1 == p2)
+                                let p3 = format!("{:24p}", *r);
+                                let p4 = format!("{:24p}", Rc::as_ptr(r));
+                                format!(
+                                    "fmt {} -> {:?} {} [{:>12}] [{:*<9.3}] [{:^+7}] {:#?} pointer_fmt_matches {} {}",
+                                    v,
+                                    r,
+                                    r,
+                                    r,
+                                    r,
+                                    r,
+                                    r,
+                                    p1 == p2,
+                                    p3 == p4
+                                )
                             }
                             None => "skip".into(),
                         },
